@@ -3001,13 +3001,14 @@ evhttp_make_request(struct evhttp_connection *evcon,
 		mm_free(req->uri);
 	req->uri = NULL;
 	/* The request target is written verbatim into the request line: it
-	 * must not be empty or contain blanks or control characters (CR/LF
-	 * would add header fields or a whole request). */
+	 * must not contain control characters (CR/LF would add header
+	 * fields or a whole request).  A space is tolerated: servers in
+	 * non-conformant mode accept such targets. */
 	for (cp = (const unsigned char *)uri; *cp; ++cp) {
-		if (*cp <= 0x20 || *cp == 0x7f)
+		if (*cp < 0x20 || *cp == 0x7f)
 			break;
 	}
-	if (*cp != '\0' || cp == (const unsigned char *)uri) {
+	if (*cp != '\0') {
 		event_warnx("%s: invalid character in request target", __func__);
 		evhttp_request_free_auto(req);
 		return (-1);
